@@ -50,6 +50,8 @@ EXTERNAL_RAISES = [
     (lambda n: n.startswith("zoneinfo.available_timezones"), set()),
     (lambda n: n.startswith("copy."), set()),
     (lambda n: n.startswith("functools.") or n.startswith("copyreg.") or n.startswith("collections."), set()),
+    # lazy iterator plumbing: raises only what the callables / iterables handed in raise
+    (lambda n: n.startswith("itertools.") or n.startswith("operator.") or n.startswith("string."), set()),
     (lambda n: n.startswith("io.") or n.endswith("StringIO"), set()),
     (lambda n: n.startswith("random."), set()),
     (lambda n: n.startswith("os."), {"OSError"}),
@@ -357,7 +359,51 @@ class FuncAnalysis:
             return guards
         return guards
 
+    def _narrowed(self, h, n, caught):
+        """A bare `raise` under `if isinstance(<bound name>, X):` re-raises only X."""
+        if h.name is None:
+            return caught
+        def find(stmts, cond):
+            for s in stmts:
+                if s is n:
+                    return cond
+                if isinstance(s, ast.If):
+                    t = s.test
+                    names = None
+                    if isinstance(t, ast.Call) and isinstance(t.func, ast.Name) and t.func.id == "isinstance" \
+                            and len(t.args) == 2 and isinstance(t.args[0], ast.Name) and t.args[0].id == h.name:
+                        c = t.args[1]
+                        names = [x.attr if isinstance(x, ast.Attribute) else x.id
+                                 for x in (c.elts if isinstance(c, ast.Tuple) else [c])
+                                 if isinstance(x, (ast.Name, ast.Attribute))]
+                    r = find(s.body, names if names else cond)
+                    if r is not False:
+                        return r
+                    r = find(s.orelse, cond)
+                    if r is not False:
+                        return r
+                else:
+                    for fld in ("body", "orelse", "finalbody"):
+                        sub = getattr(s, fld, None)
+                        if isinstance(sub, list):
+                            r = find(sub, cond)
+                            if r is not False:
+                                return r
+            return False
+        cond = find(h.body, None)
+        if not cond:
+            return caught
+        out = {}
+        for e, os_ in caught.items():
+            if any(self.h.is_sub(e, x) for x in cond):
+                out[e] = os_
+            elif e == "Exception" or any(self.h.is_sub(x, e) for x in cond):
+                for x in cond:
+                    out.setdefault(x, os_)
+        return out
+
     def handler_body(self, h, handlers, guards, caught):
+        full = caught
         for st in h.body:
             if isinstance(st, ast.Raise) and st.exc is None:
                 for e, os_ in caught.items():
@@ -367,7 +413,7 @@ class FuncAnalysis:
                 # nested bare raise deeper in the handler body
                 for n in ast.walk(st):
                     if isinstance(n, ast.Raise) and n.exc is None and n is not st:
-                        for e, os_ in caught.items():
+                        for e, os_ in self._narrowed(h, n, full).items():
                             for o in os_.values():
                                 self.emit(e, n, f"re-raise of {e}", handlers, via=o)
                 guards = self.stmt(st, handlers, guards)
@@ -586,6 +632,8 @@ class FuncAnalysis:
                     return
                 if name == "date" and self.facts.bounded_date_args(e):
                     excs = {"ValueError"}
+                if name == "next" and (len(e.args) >= 2 or e.keywords):
+                    return          # next(iterator, default)
                 for x in excs:
                     self.emit(x, e, f"{name}() on unvalidated input", handlers)
             return
@@ -724,10 +772,51 @@ class Facts:
         return self._kind_of_value(e)
 
     # ---- guards -----------------------------------------------------------
+    def _named_condition(self, name):
+        """A local bound exactly once to a condition (x = a and b / x = k in d / ...) whose
+        operands are not re-bound in the function: testing x is testing the condition."""
+        cache = self.__dict__.setdefault("_named_cond", {})
+        if name in cache:
+            return cache[name]
+        res = None
+        assigns = [n for n in ast.walk(self.f.node) if isinstance(n, ast.Assign)
+                   and any(isinstance(t, ast.Name) and t.id == name for t in n.targets)]
+        others = [n for n in ast.walk(self.f.node)
+                  if isinstance(n, (ast.AugAssign, ast.For, ast.NamedExpr, ast.AnnAssign))
+                  and any(isinstance(x, ast.Name) and x.id == name and isinstance(x.ctx, ast.Store)
+                          for x in ast.walk(n))]
+        if assigns and not others and all(
+                len(a.targets) == 1 and isinstance(a.value, (ast.BoolOp, ast.Compare, ast.UnaryOp, ast.Call))
+                for a in assigns):
+            v = [a.value for a in assigns]
+            used = {x.id for vv in v for x in ast.walk(vv) if isinstance(x, ast.Name)}
+            rebound = {x.id for n in ast.walk(self.f.node) for x in ast.walk(n)
+                       if isinstance(x, ast.Name) and isinstance(x.ctx, ast.Store) and x.id in used}
+            params = {a.arg for a in self.f.node.args.args + self.f.node.args.kwonlyargs}
+            # operands may be parameters or locals bound once before; a re-bound operand breaks it
+            counts = {}
+            for n in ast.walk(self.f.node):
+                if isinstance(n, ast.Name) and isinstance(n.ctx, ast.Store) and n.id in used:
+                    counts[n.id] = counts.get(n.id, 0) + 1
+            if all(counts.get(u, 0) <= (0 if u in params else 1) for u in used):
+                res = v
+        cache[name] = res
+        return res
+
     def from_test(self, t, positive):
         out = set()
+        if isinstance(t, ast.Name):
+            conds = self._named_condition(t.id)
+            if conds:
+                # whichever assignment gave the name its value, the name being true (false)
+                # means that condition is true (false): the facts common to all of them hold
+                sets = [self.from_test(c, positive) for c in conds]
+                common = set(sets[0])
+                for s_ in sets[1:]:
+                    common &= s_
+                out |= common
         if isinstance(t, ast.UnaryOp) and isinstance(t.op, ast.Not):
-            return self.from_test(t.operand, not positive)
+            return frozenset(out) | self.from_test(t.operand, not positive)
         if isinstance(t, ast.BoolOp):
             if isinstance(t.op, ast.And) and positive:
                 for v in t.values:
